@@ -2,12 +2,32 @@
 
 package k8s
 
-import "sigs.k8s.io/controller-runtime/pkg/client"
+import (
+	"strings"
 
-// VerifSetup injects the namespace and the (fake) client the way PreRun would have obtained them
-// in-cluster, and runs the real secret-collection step.
+	"k8s.io/client-go/rest"
+	"sigs.k8s.io/controller-runtime/pkg/client"
+)
+
+// VerifSetup runs the controller's real start-up step (PreRun: the scan for filters that reference a Secret, the
+// collection of those references with the cross-namespace check, the creation of the manager and the registration of
+// the controller) with the two things it would take from the cluster injected: the namespace and a REST configuration
+// (never contacted: the manager is not started). The (fake) API client then replaces the manager's.
 func (s *SecretController) VerifSetup(namespace string, c client.Client) error {
 	s.namespace = namespace
-	s.k8sClient = c
-	return s.loadSecrets()
+	s.restConf = &rest.Config{Host: "http://127.0.0.1:1"}
+	if err := s.PreRun(); err != nil && !(s.manager != nil && strings.Contains(err.Error(), "already exists")) {
+		// (controller-runtime keeps a process-wide registry of controller names: from the second simulated start-up
+		// of a worker process on, the very last step of PreRun - registering the controller - is refused. Everything
+		// before it has run.)
+		return err
+	}
+	if s.manager != nil {
+		s.k8sClient = c
+	}
+	return nil
 }
+
+// VerifWatching reports whether PreRun registered the controller with a manager, i.e. whether reconcile requests
+// would ever be delivered in a deployment.
+func (s *SecretController) VerifWatching() bool { return s.manager != nil }
